@@ -117,7 +117,37 @@ def main():
                 "params": [{"name": "e%d" % i, "ctx": False, "loc": "query" if i % 2 == 0 else "header", "alias": None, "type": t,
                             "pointer": False, "validator": None, "slice": False} for i, t in enumerate(P.ENUMS)]})
             base["flags"] = {"generateEnumValidator": True, "validateTopLevelOnlyEnum": both}
+            base["split_enums"] = True       # the constants of every enum are spread over three files of the package
             projects.append(base)
+        # deliberate: MANY controllers (more than a handful) using several package-qualified types
+        src = max(projects[:nproj], key=lambda q: len(q["controllers"]))
+        big = copy.deepcopy(src)
+        big["controllers"] = []
+        j = 0
+        while len(big["controllers"]) < 10:
+            for c in src["controllers"]:
+                c2 = copy.deepcopy(c)
+                c2["name"] = "%sX%d" % (c["name"], j)
+                c2["route"] = "/x%d" % j + (c["route"] if c["route"].startswith("/") or not c["route"] else "/" + c["route"])
+                for m in c2["methods"]:
+                    m["name"] = "%sX%d" % (m["name"], j)
+                big["controllers"].append(c2)
+            j += 1
+        big["flags"] = {"generateEnumValidator": False, "validateTopLevelOnlyEnum": False}
+        projects.append(big)
+    if not a.replay:
+        # deliberate: one type name declared in two packages (a collision in components.schemas, finding F16 of C07):
+        # whatever is emitted for it must be the same on every run
+        for base in projects:
+            pk = set(c["pkg"] for c in base["controllers"] if c["methods"])
+            if len(pk) >= 2:
+                same = copy.deepcopy(base)
+                same["local_same"] = True
+                for c in same["controllers"]:
+                    for m in c["methods"][:1]:
+                        m["ret"] = "LocalSameDto"
+                projects.append(same)
+                break
     moddir = os.path.join(WORK, PROP, "mod")
     shutil.rmtree(moddir, ignore_errors=True)
     P.make_module(moddir)
@@ -238,7 +268,7 @@ Print propfail.
             rp = json.load(open(a.replay))
             seqs = [(rp.get("engine", "gin"), [(x["edit"], x["project"], x.get("extra")) for x in rp["input"]["sequence"]])]
         else:
-            bases = [p for p in projects if p["controllers"][0]["methods"]][:(2 if a.tier == "quick" else 8)]
+            bases = [p for p in projects if p["controllers"][0]["methods"]][:(1 if a.tier == "quick" else 8)]
             seqs = [(ENGINES[i % len(ENGINES)], seqleg.edits(rng, b)) for i, b in enumerate(bases)]
         import concurrent.futures
         with concurrent.futures.ThreadPoolExecutor(max_workers=4) as ex:
